@@ -53,9 +53,10 @@ class Obj:
 class ExcSym:
     """symbolic exception (from a modular call / user callable); bound: class-name upper bound or None."""
 
-    def __init__(self, term, bound=None):
+    def __init__(self, term, bound=None, user=False):
         self.term = term
         self.bound = bound
+        self.user = user      # raised by a user-supplied callable
 
     def __repr__(self):
         return f"<exc {self.term} <= {self.bound}>"
